@@ -22,6 +22,7 @@ _budget = dict(cases=5160, shards=8, profiles=["debug", "release"], extra=["--sh
 
 PROP = dict(
     engines=[dict(name="import", classify=classify, quick=_budget, thorough=_budget)],
+    exhaustive=True,
     rule="EXHAUSTIVE enumeration, identical in both tiers and both build profiles (debug = overflow checks on, release = "
          "off): {import, forced_import} x {import, forced_import} x the five formats at creation x the five formats at "
          "reopening x user versions v2 - v1 in -6..+6 (covers every coincidence of effective versions, adds*VERSION <= 6) x "
@@ -29,7 +30,9 @@ PROP = dict(
          "i64 and for EagerVec wrappers; damaged stored regions (header_version, format byte, short main region, malformed "
          "holes/page-index region: outside the property, compared with the model only, except that a damaged header "
          "reset by the forced import must give an empty vector) x formats x entry points; versions at the top of u32 x formats x entry points. "
-         "5160 cases per profile. non-trivial = creation succeeded and the reopening was attempted; distinct = distinct "
+         "Every case whose reopening succeeds continues with a THIRD step: four more values are pushed, written and "
+         "flushed, and the SAME request (entry point, version, format) is issued again (2639 of the 5160 cases in the debug "
+         "profile; covers every reset and every kept path). 5160 cases per profile. non-trivial = creation succeeded and the reopening was attempted; distinct = distinct "
          "input line. The spec-level oracle is the property text evaluated on the implementation alone.",
     trusted_base=[
         "the vector's regions are modelled abstractly (decoded header fields, byte length, value list; auxiliary regions by "
@@ -61,14 +64,16 @@ TEXT = dict(
           "region of ANY store); a forced import on a mismatch returns an empty vector with a fresh header; a forced "
           "import replaces the main region ONLY IF the effective versions or formats differ (for any store: or the stored "
           "header is damaged, or an auxiliary region is malformed) and never on TryLock/IO/RawDB/CorruptedRegion/"
-          "InvalidFormat errors. The exact statements are in terms of the effective version user_version + "
+          "InvalidFormat errors; a vector re-created by the reset (or kept) and then written is returned unchanged by the "
+          "same request again (C14_reset_then_same_request_keeps, C14_extend_then_same_request_keeps). The exact statements are in terms of the effective version user_version + "
           "adds(entry)*VERSION(layer), with adds and VERSION regenerated from the source. The user-level statement of "
           "each part is REFUTED across entry points (C14_*_refuted): forced_import adds VERSION twice, so "
           "import(v) -> forced_import(v) discards matching data, forced_import(v) -> import(v) is DifferentVersion, "
           "forced_import(v) -> import(v+VERSION) serves old data under a new version. Which regions the reset removes is "
           "read from the source (Gen/ImportFacts.v): the raw family's reset once left the holes region behind (found by "
           "this check, repaired in 5d157a9); removing that line again breaks C14_forced_mismatch. The model agrees with the real code on the "
-          "complete cross product (5160 cases x debug/release)."),
+          "complete cross product (5160 cases x debug/release), each continued by write + same request again where the "
+          "reopening succeeded."),
     note=("Trusted: Coq kernel; gen_consts.py; extraction (ExtrOcamlBasic) and the OCaml driver; the Rust harness. The Rust "
           "code is modelled, not verified. Environment faults are modelled only. Known findings are listed by oracle key."),
 )
